@@ -73,10 +73,11 @@ func (l *Listener) listen() {
 		if l.state.Closing() {
 			break
 		}
-		// Read the socket once: Replace swaps it while this thread runs, a second
-		// read can find it nil after the check.
+		// Read the socket once and under the lock Replace writes it under: a second
+		// read can find it nil after the check, an unlocked one can see half of it.
+		l.lock.Lock()
 		v := l.listener
-		if v == nil {
+		if l.lock.Unlock(); v == nil {
 			time.Sleep(time.Millisecond * 30) // Prevent CPU buring loops.
 			continue
 		}
@@ -257,7 +258,6 @@ func (l *Listener) Replace(addr string, p cfg.Profile) error {
 	// One Replace at a time: the socket is swapped in several steps that the
 	// accept thread follows through the Replacing flag.
 	l.lock.Lock()
-	defer l.lock.Unlock()
 	// The socket is nil after a Replace that could not bind (the Listener is closed
 	// then, the bind below fails on its canceled context).
 	if l.state.Set(stateReplacing); l.listener != nil {
@@ -266,14 +266,18 @@ func (l *Listener) Replace(addr string, p cfg.Profile) error {
 	l.listener = nil
 	v, err := p.Listen(l.ctx, h)
 	if err != nil {
+		// Not while Close waits for the accept thread, which takes the lock.
+		l.lock.Unlock()
 		l.Close()
 		return xerr.Wrap("unable to listen", err)
 	} else if v == nil {
+		l.lock.Unlock()
 		l.Close()
 		return xerr.Sub("unable to listen", 0x49)
 	}
 	l.listener, l.w, l.t, l.p = v, w, t, p
-	if l.state.Unset(stateReplacing); cout.Enabled {
+	l.state.Unset(stateReplacing)
+	if l.lock.Unlock(); cout.Enabled {
 		l.log.Info(`[%s] Replaced listener socket, now bound to "%s"!`, l.name, h)
 	}
 	return nil
